@@ -522,3 +522,18 @@ Proof.
   intros w p. unfold build_pkg, cache_hit, build_traced. cbn [is_some].
   destruct (transform_package (w_first w) (p_modules p) [] []). reflexivity.
 Qed.
+
+(* the narrowed class of F-C12b *)
+Theorem stale_failed_only_spec : forall c w,
+  stale_failed_onlyb c w = true <->
+  forall p, In p (w_pkgs w) -> pkg_agrees c w p = false ->
+    exists q e, find_pkg (w_pkgs w) (p_nv p) = Some q /\ cache_hit (Some c) w q = Some e /\ failed_entry e = true.
+Proof.
+  intros c w. unfold stale_failed_onlyb. rewrite forallb_forall. split.
+  - intros H p Hp Ha. specialize (H p Hp). cbv beta in H. rewrite Ha in H. cbn [orb] in H.
+    destruct (find_pkg (w_pkgs w) (p_nv p)) as [q|]; [|discriminate].
+    destruct (cache_hit (Some c) w q) as [e|] eqn:E; [|discriminate].
+    exists q, e. repeat split; assumption.
+  - intros H p Hp. destruct (pkg_agrees c w p) eqn:Ea; [reflexivity|]. cbn [orb].
+    destruct (H p Hp Ea) as [q [e [H1 [H2 H3]]]]. rewrite H1, H2. exact H3.
+Qed.
